@@ -519,6 +519,8 @@ def corpus_events(n, sd, per_pattern=1):
     if n > len(ents):
         ents = ents + corpus.draw(n - len(ents), sd + 15)
     ents = ents + ewbcast_entries(sd, per_pattern)
+    # graph shapes (corpus_shapes.py): few channels, extreme extents, asymmetric strides ... (a rotating sample when n is small)
+    ents = ents + corpus.shape_sample(sd, "quick", k=6 if n < 60 else 12)
     jobs = [{"id": i, "net": e["net"], "opts": e["opts"]} for i, e in enumerate(ents)]
     results = vela_run.compile_many(jobs, corpus_extract, timeout=600)
     events, compiled, fams = [], 0, {}
